@@ -11,6 +11,30 @@ for tc in ET.parse(out).getroot().iter('testcase'):
         passed.add(tc.get('classname') + '::' + tc.get('name'))
 os.remove(out)
 missing = [t for t in b['stable_pass'] if t not in passed]
+# the repository's suite contains unseeded statistical tests (e.g. tests/end-to-end/univariate/test_gamma.py::test_fit_sample)
+# that fail now and then on any tree; a test that passes when re-run on its own is reported as flaky, not as missing
+flaky = []
+for t in list(missing):
+    mod, _, rest = t.partition('::')
+    parts = mod.split('.')
+    # classname is dotted path + class; find the file
+    for cut in range(len(parts), 0, -1):
+        path = os.path.join('/repo', *parts[:cut]) + '.py'
+        if os.path.exists(path):
+            node = path + '::' + '::'.join(parts[cut:] + [rest])
+            ok = False
+            for _ in range(2):
+                r = subprocess.run('cd /repo && /venv/bin/python -m pytest -q -p no:cacheprovider "%s"' % node, shell=True, env=env,
+                                   stdout=subprocess.DEVNULL, stderr=subprocess.DEVNULL)
+                if r.returncode == 0:
+                    ok = True
+                    break
+            if ok:
+                missing.remove(t)
+                flaky.append(t)
+            break
+for t in flaky:
+    print('  FLAKY (passes when re-run)', t)
 print('baseline stable_pass: %d, passing now: %d, missing: %d' % (len(b['stable_pass']), len(passed), len(missing)))
 for m in missing:
     print('  MISSING', m)
